@@ -74,6 +74,12 @@ const (
 	OFpLt
 	OFpLe
 	OFpCvt // i1 = target width; result BV pattern
+	OFpDiv   // float64 division (RNE), BV64 patterns
+	OFpMul   // float64 multiplication (RNE)
+	OFpFromS // signed int (any width) -> float64 pattern (RNE)
+	OFpFromU // unsigned int -> float64 pattern (RNE)
+	OFpToS   // float64 -> signed int64, toward zero (Go conversion; out of range unspecified)
+	OFpRound // math.Round: to integral, ties away from zero
 	// mathematical integers
 	OIntAdd
 	OIntSub
@@ -518,6 +524,18 @@ func foldBin(op Op, a, c uint64, w int) (uint64, bool) {
 	return 0, false
 }
 
+// Concat: x is the high part.
+func (b *TermBank) Concat(x, y *Term) *Term {
+	w := x.sort.W + y.sort.W
+	if x.IsConst() && y.IsConst() && w <= 64 {
+		return b.BVu(x.u<<uint(y.sort.W)|y.u, w)
+	}
+	if w > 64 {
+		panic("concat wider than 64 bits")
+	}
+	return b.mk(&Term{op: OConcat, sort: Sort{SBV, w}, args: []*Term{x, y}})
+}
+
 func (b *TermBank) Neg(x *Term) *Term {
 	if x.IsConst() {
 		return b.BVu(-x.u, x.sort.W)
@@ -619,6 +637,45 @@ func (b *TermBank) FpCvt(x *Term, to int) *Term {
 		return b.BVu(fpCvtU(x.u, x.sort.W, to), to)
 	}
 	return b.mk(&Term{op: OFpCvt, sort: Sort{SBV, to}, args: []*Term{x}, i1: to})
+}
+
+func (b *TermBank) FpBin(op Op, x, y *Term) *Term {
+	if x.IsConst() && y.IsConst() {
+		a, c := math.Float64frombits(x.u), math.Float64frombits(y.u)
+		if op == OFpDiv {
+			return b.BVu(math.Float64bits(a/c), 64)
+		}
+		return b.BVu(math.Float64bits(a*c), 64)
+	}
+	if y.IsConst() && y.u == math.Float64bits(1.0) {
+		return x // x/1 == x, x*1 == x (bit-exact for every x except the payload of a signalling NaN)
+	}
+	return b.mk(&Term{op: op, sort: Sort{SBV, 64}, args: []*Term{x, y}})
+}
+func (b *TermBank) FpFromInt(x *Term, signed bool) *Term {
+	if x.IsConst() {
+		if signed {
+			return b.BVu(math.Float64bits(float64(sext(x.u, x.sort.W))), 64)
+		}
+		return b.BVu(math.Float64bits(float64(x.u)), 64)
+	}
+	op := OFpFromU
+	if signed {
+		op = OFpFromS
+	}
+	return b.mk(&Term{op: op, sort: Sort{SBV, 64}, args: []*Term{x}})
+}
+func (b *TermBank) FpToS(x *Term) *Term {
+	if x.IsConst() {
+		return b.BVi(int64(math.Float64frombits(x.u)), 64)
+	}
+	return b.mk(&Term{op: OFpToS, sort: Sort{SBV, 64}, args: []*Term{x}})
+}
+func (b *TermBank) FpRound(x *Term) *Term {
+	if x.IsConst() {
+		return b.BVu(math.Float64bits(math.Round(math.Float64frombits(x.u))), 64)
+	}
+	return b.mk(&Term{op: OFpRound, sort: Sort{SBV, 64}, args: []*Term{x}})
 }
 
 // ---- mathematical integers ----
@@ -792,6 +849,18 @@ func (t *Term) body() string {
 	case OFpEq, OFpLt, OFpLe:
 		n := map[Op]string{OFpEq: "fp.eq", OFpLt: "fp.lt", OFpLe: "fp.leq"}[t.op]
 		fmt.Fprintf(&sb, "(%s %s %s)", n, fpOf(t.args[0].ref(), t.args[0].sort.W), fpOf(t.args[1].ref(), t.args[1].sort.W))
+	case OFpDiv:
+		fmt.Fprintf(&sb, "(fp.to_ieee_bv (fp.div RNE %s %s))", fpOf(t.args[0].ref(), 64), fpOf(t.args[1].ref(), 64))
+	case OFpMul:
+		fmt.Fprintf(&sb, "(fp.to_ieee_bv (fp.mul RNE %s %s))", fpOf(t.args[0].ref(), 64), fpOf(t.args[1].ref(), 64))
+	case OFpFromS:
+		fmt.Fprintf(&sb, "(fp.to_ieee_bv ((_ to_fp 11 53) RNE %s))", t.args[0].ref())
+	case OFpFromU:
+		fmt.Fprintf(&sb, "(fp.to_ieee_bv ((_ to_fp_unsigned 11 53) RNE %s))", t.args[0].ref())
+	case OFpToS:
+		fmt.Fprintf(&sb, "((_ fp.to_sbv 64) RTZ %s)", fpOf(t.args[0].ref(), 64))
+	case OFpRound:
+		fmt.Fprintf(&sb, "(fp.to_ieee_bv (fp.roundToIntegral RNA %s))", fpOf(t.args[0].ref(), 64))
 	case OFpCvt:
 		src := fpOf(t.args[0].ref(), t.args[0].sort.W)
 		if t.i1 == 32 {
@@ -879,6 +948,18 @@ func (bk *TermBank) Eval(t *Term, m *Model, cache map[int]evalVal) evalVal {
 		r.u = bu(fpVal(ev(0).u, t.args[0].sort.W) <= fpVal(ev(1).u, t.args[1].sort.W))
 	case OFpCvt:
 		r.u = fpCvtU(ev(0).u, t.args[0].sort.W, t.i1)
+	case OFpDiv:
+		r.u = math.Float64bits(math.Float64frombits(ev(0).u) / math.Float64frombits(ev(1).u))
+	case OFpMul:
+		r.u = math.Float64bits(math.Float64frombits(ev(0).u) * math.Float64frombits(ev(1).u))
+	case OFpFromS:
+		r.u = math.Float64bits(float64(sext(ev(0).u, t.args[0].sort.W)))
+	case OFpFromU:
+		r.u = math.Float64bits(float64(ev(0).u))
+	case OFpToS:
+		r.u = uint64(int64(math.Float64frombits(ev(0).u)))
+	case OFpRound:
+		r.u = math.Float64bits(math.Round(math.Float64frombits(ev(0).u)))
 	case OIntAdd:
 		r.b = new(big.Int).Add(ev(0).b, ev(1).b)
 	case OIntSub:
@@ -933,4 +1014,4 @@ func (bk *TermBank) Eval(t *Term, m *Model, cache map[int]evalVal) evalVal {
 
 // dependsOnUnspecified reports terms whose value the Go-side evaluator cannot reproduce exactly
 // (division by zero, NaN conversions); the model shortcut is skipped for them.
-func (t *Term) hasFp() bool { return t.op == OFpCvt }
+func (t *Term) hasFp() bool { return t.op == OFpCvt || (t.op >= OFpDiv && t.op <= OFpRound) }
